@@ -216,7 +216,10 @@ pub fn gen_robot(rng: &mut Rng, idx: u64, mode: RobotMode, dof5_prob: f64) -> Ro
     };
     if rng.bool(dof5_prob) {
         rp.dof = 5;
-        rp.signs[5] = 0;
+        // (a parameter file with `dof: 5` blocks the sixth sign; a built-in set switched to dof 5 keeps it)
+        if rng.bool(0.6) {
+            rp.signs[5] = 0;
+        }
     }
     Robot { rp, class, sign_pattern: if keep_own { 255 } else { pattern }, offset_class }
 }
